@@ -153,6 +153,30 @@ func runC10(c *an.Ctx) {
 	}
 	compare("WriteReq", "WriteResp")
 	compare("ReadReq", "ReadResp")
+	// the Reject status is a function of the side, not of the entry point: 413 for requests, 500 for responses,
+	// at every rejection site
+	for _, k := range []string{"WriteReq", "ReadReq", "WriteResp", "ReadResp"} {
+		fn := fns[k]
+		if fn == nil {
+			continue
+		}
+		want := "413"
+		if strings.HasSuffix(k, "Resp") {
+			want = "500"
+		}
+		n := 0
+		an.Instrs(fn, func(in ssa.Instruction) {
+			cc := an.CallOf(in)
+			if cc == nil || cc.StaticCallee() == nil || cc.StaticCallee().Name() != "setAndReturnBodyLimitInterruption" {
+				return
+			}
+			n++
+			st := an.Expr(cc.Args[1])
+			c.Check(st == want, "R1", fmt.Sprintf("%s: rejection #%d uses status %s", shortFn(names[k]), n, want), in.Pos(), "status "+st,
+				"this rejection site answers "+st+" where the "+map[bool]string{true: "response", false: "request"}[want == "500"]+" side answers "+want+" everywhere else: the status of a refused body depends on the entry point and on how the body was delivered")
+		})
+		c.MinCount("R1", "rejection sites in "+shortFn(names[k]), n, 1)
+	}
 	// Write vs ReadFrom on the same side: the boundary atoms must coincide.
 	boundary := func(k string) []string {
 		if fns[k] == nil {
